@@ -28,5 +28,15 @@ CLAIMS = {
         'converting long->int, row-wise iterator copy, fill, swap, 1-D range/iterator/initializer-list, array_ref flat copy) a whole-storage image oracle at a symbolic cell proves: a viewed cell holds exactly the corresponding source element (contents are address-coded, so the value identifies the source cell), '
         'every other cell is untouched, the source is unchanged, and the destination still has its base and layout (never rebound/resized).',
    note='Bounds quick: D=1 extents<=3 strides<=4; D=2 extents<=2 strides<=3; thorough: D=2 extents<=3, D=3 extents<=2. Source and destination in separate storages (a sufficient form of "disjoint elements"). element_moved and D=0 are covered in the owning-array harnesses (C04/C08). Same trusted base as C01.'),
+ 'C04': dict(
+   text='One operation from an arbitrary reachable pre-state (default-constructed, sized with/without fill, cleared, moved-from, empty shape: one query per pre-state kind) with symbolic extents and position-coded contents: '
+        'copy construction, copy assignment over every prior state, self-assignment, move construction/assignment (storage taken over, no element copied or moved, no allocation, source empty yet assignable and destructible), swap, '
+        'assignment/construction from a view of ARBITRARY layout (symbolic strides/origin), from an array of convertible element type, from (nested) initializer lists, decay/unary plus. Checked against a plain model at a symbolic index tuple; '
+        'independence checked by writing through either object. Because every operation is proved from every generator pre-state and yields a model value again, histories are covered by induction. Element types int and the tracked non-trivial Tr.',
+   note='Bounds quick: D=1 (int, extents<=3; Tr, extents<=2); thorough adds D=2 (extents<=2). D=0,3,4 outside. Harness allocator A<T> (fixed slots of a static arena, never reused); operator new elsewhere from a static arena. Empty shapes of owning arrays compared by emptiness (library collapses them). Same trusted base as C01.'),
+ 'C07': dict(
+   text='Two operands, each an ARBITRARY zero-based view (own symbolic extents, strides, origin) over storages with symbolic contents in {0,1,2}; separate storages, the SAME storage (aliased operands of different layout), array_ref vs array_ref, array_ref vs strided view, int vs long elements, const and mutable operands. '
+        'Oracle = plain loops: == iff same extents and equal elements; != its negation; <, <=, > (and >= in 1-D) equal the recursive lexicographic order with proper-prefix rule; symmetry, reflexivity, at-most-one / exactly-one of a<b, a==b, b<a. Thorough: D=3 and transitivity/congruence on triples.',
+   note='Bounds quick: D=1 extents<=3, D=2 extents<=2, strides<=4; thorough D=3 extents<=2. For empty operands only ==/!= consistency (as the property states). Owning arrays as operands are exercised through array_ref/views of their storage. Same trusted base as C01.'),
  'C16': dict(not_applicable='every clause is about which C++ expressions are well-formed / what type overload resolution yields (is_assignable, is_invocable, copy-constructibility): const-ness is erased before LLVM IR exists, there is no run-time behaviour to execute symbolically; the deciding procedure is the C++ type checker, not an SMT/SAT solver (DESIGN.md C16)'),
 }
